@@ -174,13 +174,22 @@ impl<'a, I: Iterator<Item = B> + Clone, B: Borrow<Item<'a>>> DelayedFormat<I> {
             }
         }
 
+        /// The year divided by 100 does not fit two digits for years outside 0..=9999.
+        fn write_century(w: &mut impl Write, century: i32, pad: Pad) -> fmt::Result {
+            if (0..100).contains(&century) {
+                write_two(w, century as u8, pad)
+            } else {
+                write_n(w, 2, century as i64, pad, false)
+            }
+        }
+
         match (spec, self.date, self.time) {
             (Year, Some(d), _) => write_year(w, d.year(), pad),
-            (YearDiv100, Some(d), _) => write_two(w, d.year().div_euclid(100) as u8, pad),
+            (YearDiv100, Some(d), _) => write_century(w, d.year().div_euclid(100), pad),
             (YearMod100, Some(d), _) => write_two(w, d.year().rem_euclid(100) as u8, pad),
             (IsoYear, Some(d), _) => write_year(w, d.iso_week().year(), pad),
             (IsoYearDiv100, Some(d), _) => {
-                write_two(w, d.iso_week().year().div_euclid(100) as u8, pad)
+                write_century(w, d.iso_week().year().div_euclid(100), pad)
             }
             (IsoYearMod100, Some(d), _) => {
                 write_two(w, d.iso_week().year().rem_euclid(100) as u8, pad)
